@@ -5,11 +5,11 @@ import common as c
 BASE = {"MaxN": 40, "Works": "{1}", "SharedRoots": "FALSE", "MaxFuture": 0, "MaxForb": 0, "Deviations": "{}"}
 
 
-def sync_consts(H, F=0, ForkAt=0, CpHs=(2,), Peers=(1, 2), Cap=2, CpEnabled=True, Forbid=(), Findings=(), MaxEnv=6, MaxConnects=2, Emit="none", Scenario="s", MaxRestarts=0):
+def sync_consts(H, F=0, ForkAt=0, CpHs=(2,), Peers=(1, 2), Cap=2, CpEnabled=True, Forbid=(), Findings=(), MaxEnv=6, MaxConnects=2, Emit="none", Scenario="s", MaxRestarts=0, MaxAsks=0, MaxRaw=0):
     d = dict(BASE)
     d.update({"Peers": c.tla_set(Peers), "Cap": Cap, "CpEnabled": "TRUE" if CpEnabled else "FALSE", "Forbid": c.tla_set(Forbid),
               "Findings": c.tla_set(Findings), "H": H, "F": F, "ForkAt": ForkAt, "CpHs": c.tla_set(CpHs), "MaxEnv": MaxEnv,
-              "MaxConnects": MaxConnects, "MaxRestarts": MaxRestarts, "Emit": '"%s"' % Emit, "Scenario": '"%s"' % Scenario})
+              "MaxConnects": MaxConnects, "MaxRestarts": MaxRestarts, "MaxAsks": MaxAsks, "MaxRaw": MaxRaw, "Emit": '"%s"' % Emit, "Scenario": '"%s"' % Scenario})
     return d
 
 
@@ -45,10 +45,10 @@ def generate(tag, consts, sample=None, rng=None, simulate=None, depth=None, seed
     return out, n, r
 
 
-def exp_consts(H, F=0, ForkAt=0, CpHs=(2,), Cap=2, Forbid=(), Findings=(), MaxEnv=6, Emit="none", Scenario="x"):
+def exp_consts(H, F=0, ForkAt=0, CpHs=(2,), Cap=2, Forbid=(), Findings=(), MaxEnv=6, Emit="none", Scenario="x", MaxRaw=0):
     d = dict(BASE)
     d.update({"Cap": Cap, "Forbid": c.tla_set(Forbid), "Findings": c.tla_set(Findings), "H": H, "F": F, "ForkAt": ForkAt,
-              "CpHs": c.tla_set(CpHs), "MaxEnv": MaxEnv, "Emit": '"%s"' % Emit, "Scenario": '"%s"' % Scenario})
+              "CpHs": c.tla_set(CpHs), "MaxEnv": MaxEnv, "MaxRaw": MaxRaw, "Emit": '"%s"' % Emit, "Scenario": '"%s"' % Scenario})
     return d
 
 
